@@ -92,19 +92,20 @@ def retireMin (f : D → Bytes → D) (all : Bool) (m : M D) : M D × Option Cid
   | none => (m, none)
   | some c =>
     let ctxs' : Cid → Ctx D := fun j =>
-      if (if all then decide (j ∈ occ) else decide (j = c)) then advance f k (m.ctxs j) else m.ctxs j
+      if (all && decide (j ∈ occ)) || decide (j = c) then advance f k (m.ctxs j) else m.ctxs j
     (retire m ctxs' c, some c)
+
+/-- the manager after the job of context `c` has been put into lane `i` (top of the free stack) -/
+def placed (m : M D) (c : Cid) (bs : List Bytes) (i : Nat) (fr : List Nat) : M D :=
+  { ctxs := fun k => if k = c then { m.ctxs c with lane := some ((m.ctxs c).dig, bs) } else m.ctxs k,
+    slots := m.slots.set i (some c), free := fr }
 
 /-- `*_mb_mgr_submit_*`: take the lane on top of the free stack, load digest / pointer / length;
     if that filled the last lane run the kernel for the minimum length and hand back that job -/
 def mgrSubmit (f : D → Bytes → D) (m : M D) (c : Cid) (bs : List Bytes) : M D × Option Cid :=
   match m.free with
   | [] => (m, none)              -- unreachable under the invariant (a full manager has retired a lane)
-  | i :: fr =>
-    let x := m.ctxs c
-    let m1 : M D := { ctxs := (setCtx m c { x with lane := some (x.dig, bs) }).ctxs,
-                      slots := m.slots.set i (some c), free := fr }
-    if fr = [] then retireMin f true m1 else (m1, none)
+  | i :: fr => if fr = [] then retireMin f true (placed m c bs i fr) else (placed m c bs i fr, none)
 
 /-- `*_mb_mgr_flush_*` -/
 def mgrFlush (P : Params) (f : D → Bytes → D) (m : M D) : M D × Option Cid :=
